@@ -58,13 +58,14 @@ def C08():
     from contracts.renderer import RenderBody
     from contracts.spanning import EncodeSpanningRow
     from contracts.headers import EncodeColumnHeader, RenderColumnHeaders
+    from contracts.document_init import DocumentInit
     from contracts import replayers as R
     from contracts.replay_docs import replayer as D
     return Property(
         "C08",
         units=[ContractUnit(ColWidths()), ContractUnit(InchToTwip()), ContractUnit(EncodeRows()), ContractUnit(CellAsRtf()), ContractUnit(RowAsRtf()),
                ContractUnit(EncodeSpanningRow()), ContractUnit(RenderBody(), variants=["levels1", "levels2", "no_boundaries"]),
-               ContractUnit(EncodeColumnHeader()), ContractUnit(RenderColumnHeaders()), _render_unit(quick=("groups1",), thorough=("groups2",)), _section_unit(), _prepare_unit()]
+               ContractUnit(EncodeColumnHeader()), ContractUnit(RenderColumnHeaders()), _render_unit(quick=("groups1",), thorough=("groups2",)), _section_unit(), _prepare_unit(), ContractUnit(DocumentInit())]
         + _note_units() + LEMMAS,
         level="proof",
         technique="comprehension invariant cum*total == col_width*P[i] (nonlinear real arithmetic) on the real Utils._col_widths; inductive lemma for prefix "
@@ -73,14 +74,16 @@ def C08():
                   "and the page's col_widths for the data rows; every column header is laid out on the table width with exactly one relative width per "
                   "header cell (inherited full-table widths are replaced by the displayed columns' widths)",
         trusted_base=[SOLVERS, ENGINE, "floats treated as reals (L3): 'within one twip' is exact in the model"],
-        assumptions=["width vectors set at construction (RTFDocument.__init__ defaults/broadcast/inheritance) are a separate carrier not yet under contract in "
-                     "this check; prepare_dataframe_for_body_encoding slices them to the displayed columns (unit PrepareFrame) and _encode_body_section turns "
-                     "them into the page boundaries (unit EncodeBodySection); "
+        assumptions=["RTFDocument.__init__ sets default / broadcast / inherited relative widths (unit DocumentInit: per-object obligations on lazily allocated "
+                     "section bodies and headers), prepare_dataframe_for_body_encoding slices them to the displayed columns (unit PrepareFrame) and "
+                     "_encode_body_section turns them into the page boundaries (unit EncodeBodySection); these units are composed by their stated contracts, "
+                     "the composition itself (one end-to-end lemma) is not machine checked; "
                      "RenderColumnHeaders assumes their results: the page carries one relative width per displayed column and every header has widths",
                      "header labels are one per displayed column or one per own relative width (other shapes are configuration errors outside the property)",
                      "nested (multi-section) header lists are not covered by RenderColumnHeaders"],
         replayers={"row.py::Utils._col_widths": R.replay_col_widths, "row.py::Utils._inch_to_twip": R.replay_inch_to_twip,
                    "*spanning*": D("spanning_edges"), "*_render_column_headers*": D("edges"), "*encode_column_header*": D("edges"),
+                   "encode.py::RTFDocument.__init__": R.replay_document_init,
                    "*_render_body*": D("spanning_edges")},
         design_ref="4/C08, A4",
     )
